@@ -1017,6 +1017,11 @@ impl World {
                 };
                 let _ = r.send(cmd);
             }
+            "cancelcalls" => {
+                // cancelcalls side name tx|rx: cancel every call issued on that handle
+                let key = format!("{}@{}:{}", t[2], t[1], t[3]);
+                self.cancel_calls_of(&key);
+            }
             "cancel" => {
                 if let Some(c) = self.cancels.remove(t[1]) {
                     let _ = c.send(());
